@@ -112,7 +112,7 @@ Bad(P, full, r) ==
 OffenderName(r) == CASE r \in {"R14"} -> "a" [] r \in {"R17", "R18", "R19", "R17o", "R17x", "R19o", "R19x", "R17a", "R19a"} -> "o"
                      [] r = "R21" -> "nope" [] r = "R22" -> "c" [] r = "R23" -> "a" [] r \in {"R24", "R24v", "R24d", "R24dv"} -> "Do" [] OTHER -> "a"
 
-Placements == {"top", "nested", "otherfile", "imported"}
+Placements == {"top", "nested", "nested_in_annotated", "otherfile", "imported"}
 \* with_valid: an unrelated valid annotation next to the offender; peer_msg: an earlier message that
 \* uses the offender's field type (same kind, same referenced enum / message) without the annotation;
 \* peer_field: the same as an earlier field of the offending message itself (for the nested placement:
@@ -137,6 +137,14 @@ C12MessageCase(P, r, pl, sur) ==
                                      <<MsgN("Outer", FN(P, "Outer"),
                                             <<F("k", "k", 1, "string", "one")>> \o (IF sur = "peer_field" THEN <<PeerField(bad0)>> ELSE <<>>),
                                             <<Bad(P, FN(P, "Outer") \o ".Bad", r)>>)>>, <<>>)>>)
+       \* the enclosing message carries valid annotations of its own (an unwrap list, a nullable field): a walk that
+       \* stops at the first message it has something to do for never sees the declarations inside it
+       [] pl = "nested_in_annotated" ->
+            Schema(<<svcFile(common \o extra \o
+                             <<MsgN("Outer", FN(P, "Outer"),
+                                    <<Ann(F("vals", "vals", 1, "string", "rep"), "unwrap", TRUE), Ann(F("s0", "s0", 2, "string", "opt"), "nullable", TRUE)>>
+                                    \o (IF sur = "peer_field" THEN <<PeerField(bad0)>> ELSE <<>>),
+                                    <<Bad(P, FN(P, "Outer") \o ".Bad", r)>>)>>, <<>>)>>)
        [] pl = "otherfile" ->
             Schema(<<File(P \o "/types.proto", Pkg(P), GoPkg(P), TRUE, <<>>, <<>>, common \o (IF sur = "peer_msg" THEN extra ELSE <<>>) \o <<pf(bad0)>>, <<EnumE>>),
                      File(P \o "/svc.proto", Pkg(P), GoPkg(P), TRUE, <<P \o "/types.proto">>,
@@ -172,7 +180,9 @@ C12MethodCase(P, r, sur) ==
 Twins == {"T_unwrap_list", "T_unwrap_map", "T_unwrap_mapvalue", "T_nullable", "T_empty", "T_ts", "T_bytes", "T_flatten",
           "T_flatten_prefix", "T_flatten_nested_twice", "T_oneof", "T_oneof_flat", "T_enum_custom", "T_enum_number", "T_int64", "T_get_query", "T_plain",
           \* one value of an annotation alone in its file (what a codec file imports / declares depends on which values occur)
-          "T_bytes_hex", "T_bytes_b64url", "T_ts_date", "T_empty_omit", "T_empty_null"}
+          "T_bytes_hex", "T_bytes_b64url", "T_ts_date", "T_empty_omit", "T_empty_null",
+          \* a flattened discriminated oneof whose discriminator values are not the member names
+          "T_oneof_flat_custom"}
 TwinMsgs(P, t) ==
   LET c == FN(P, "Child") c2 == FN(P, "Child2") IN
   CASE t = "T_unwrap_list" -> <<Msg("W", FN(P, "W"), <<Ann(F("items", "items", 1, "string", "rep"), "unwrap", TRUE)>>)>>
@@ -204,6 +214,8 @@ TwinMsgs(P, t) ==
                                      InOneof(Ann(FRef("b", "b", 3, "message", "one", c2), "oneofValue", "bee"), "o")>>, <<Oneof("o", TRUE, "type", FALSE)>>)>>
     [] t = "T_oneof_flat"  -> <<MsgO("W", FN(P, "W"), <<F("k", "k", 1, "string", "one"), InOneof(FRef("a", "a", 2, "message", "one", c), "o"),
                                      InOneof(FRef("b", "b", 3, "message", "one", c2), "o")>>, <<Oneof("o", TRUE, "type", TRUE)>>)>>
+    [] t = "T_oneof_flat_custom" -> <<MsgO("W", FN(P, "W"), <<F("k", "k", 1, "string", "one"), InOneof(Ann(FRef("a", "a", 2, "message", "one", c), "oneofValue", "alpha"), "o"),
+                                     InOneof(Ann(FRef("b", "b", 3, "message", "one", c2), "oneofValue", "bee"), "o")>>, <<Oneof("o", TRUE, "type", TRUE)>>)>>
     [] t = "T_enum_custom" -> <<Msg("W", FN(P, "W"), <<FRef("e", "e", 1, "enum", "one", FN(P, "E"))>>)>>
     [] t = "T_enum_number" -> <<Msg("W", FN(P, "W"), <<Ann(FRef("e", "e", 1, "enum", "one", FN(P, "P")), "enumEnc", "NUMBER")>>)>>
     [] t = "T_int64"       -> <<Msg("W", FN(P, "W"), <<Ann(F("n", "n", 1, "int64", "one"), "int64", "NUMBER"), Ann(F("u", "u", 2, "uint64", "one"), "int64", "STRING")>>)>>
@@ -275,13 +287,20 @@ C15Case(P, t) ==
       s1 == WithHeaders(Service("SvcOne", TRUE, Parts(TRUE, <<Lit("one")>>, FALSE), <<doA, doW>>), H3)
       s2 == WithHeaders(Service("SvcTwo", FALSE, NoParts, <<Method("Other", FN(P, "MapB"), FN(P, "Out"), TRUE, Parts(TRUE, <<Lit("o")>>, FALSE), "POST"),
                                                            Method("Roots", FN(P, "RootA"), FN(P, "RootB"), TRUE, Parts(TRUE, <<Lit("r")>>, FALSE), "POST"),
-                                                           Method("Bill", FN(P, "Order"), FN(P, "Invoice"), TRUE, Parts(TRUE, <<Lit("bill")>>, FALSE), "POST")>>), H3)
+                                                           Method("Bill", FN(P, "Order"), FN(P, "Invoice"), TRUE, Parts(TRUE, <<Lit("bill")>>, FALSE), "POST"),
+                                                           Method("Pick", FN(P, "Out"), FN(P, "PickA"), TRUE, Parts(TRUE, <<Lit("pick")>>, FALSE), "POST")>>), H3)
       \* messages following the custom-error naming convention (...Error) that live in the type files and
       \* that no RPC reaches: what a service's module declares must not depend on which sibling files of
       \* the package happen to be generated in the same run
       ea == Msg("QuotaExceededError", FN(P, "QuotaExceededError"), <<F("limit", "limit", 1, "int64", "one"), FRef("kind", "kind", 2, "enum", "one", FN(P, "E"))>>)
       eb == Msg("RateLimitError", FN(P, "RateLimitError"), <<F("retry_after", "retryAfter", 1, "int32", "one")>>)
       es == Msg("SvcLocalError", FN(P, "SvcLocalError"), <<F("why", "why", 1, "string", "one")>>)
+      \* responses with a real oneof that has a message member, in TWO files that declare services (what the
+      \* optional mock server fills in for them must not depend on what else the run generates)
+      pick(n) == MsgO(n, FN(P, n), <<InOneof(FRef("a", "a", 1, "message", "one", FN(P, "Child")), "o"), InOneof(F("s", "s", 2, "string", "one"), "o")>>,
+                      <<Oneof("o", FALSE, "", FALSE)>>)
+      s3 == Service("SvcThree", TRUE, Parts(TRUE, <<Lit("three")>>, FALSE),
+                    <<Method("Pick", FN(P, "Out"), FN(P, "PickB"), TRUE, Parts(TRUE, <<Lit("p")>>, FALSE), "POST")>>)
       \* two enums that share their short name (nested declarations of two messages): full names order them
       ord == [Msg("Order", FN(P, "Order"), <<FRef("status", "status", 1, "enum", "one", FN(P, "Order") \o ".Status")>>)
               EXCEPT !.enums = <<Enum("Status", <<EnumV("STATUS_UNSPECIFIED", 0, ""), EnumV("STATUS_OPEN", 1, "")>>)>>]
@@ -290,7 +309,8 @@ C15Case(P, t) ==
   IN Schema(<<File(P \o "/types_a.proto", Pkg(P), GoPkg(P), TRUE, <<>>, <<>>, <<Child(P), Child2(P), la, ea>>, <<EnumE>>),
               File(P \o "/types_b.proto", Pkg(P), GoPkg(P), TRUE, <<P \o "/types_a.proto">>, <<>>, <<lb, ma, eb>> \o TwinMsgs(P, t), <<EnumPlain>>),
               File(P \o "/svc.proto", Pkg(P), GoPkg(P), TRUE, <<P \o "/types_a.proto", P \o "/types_b.proto">>,
-                   <<s1, s2>>, <<Out(P), mb, ra, rb, es, ord, inv>>, <<>>),
+                   <<s1, s2>>, <<Out(P), mb, ra, rb, es, ord, inv, pick("PickA")>>, <<>>),
+              File(P \o "/svc_more.proto", Pkg(P), GoPkg(P), TRUE, <<P \o "/types_a.proto", P \o "/svc.proto">>, <<s3>>, <<pick("PickB")>>, <<>>),
               \* two files of the same package that nothing imports: visible to a plugin only when they are
               \* generated in the same run
               File(P \o "/errors.proto", Pkg(P), GoPkg(P), TRUE, <<>>, <<>>,
@@ -312,7 +332,10 @@ Shapes == {"self_rec", "mutual_rec", "rec_via_map", "rec_via_oneof", "rec_via_re
            \* path templates with braces in unusual places (a stray closing brace in a literal segment, a
            \* router-style constrained variable, an unclosed variable, an empty variable): the answer may be
            \* files or an error message, never a crash
-           "path_braces"}
+           "path_braces",
+           \* services that share their simple name across the packages of one run (v1 / v2 / v3 of an API generated
+           \* together; four of them): documents, modules and helper names derive from the simple name
+           "same_named_services"}
 RECURSIVE DeepMsgs(_, _, _)
 DeepMsgs(P, i, n) ==
   IF i > n THEN <<>>
@@ -401,6 +424,9 @@ C16Case(P, sh, depth) ==
                                         m("D", <<Lit("empty"), Lit("{}"), Var("part_id")>>),
                                         m("E", <<Lit("}{"), Var("sku"), Lit("}}")>>)>>)>>,
                              <<w(<<F("k", "k", 1, "string", "one")>>), q>>, <<EnumE>>)>>)
+       [] sh = "same_named_services" ->
+            LET one(Q) == File(Q \o "/svc.proto", Pkg(Q), GoPkg(Q), TRUE, <<>>, <<Svc(Q, <<PostIn(Q, FN(Q, "In"))>>)>>, <<In(Q), Out(Q)>>, <<>>)
+            IN Schema(<<one(P \o "a"), one(P \o "b"), one(P \o "c"), one(P \o "d")>>)
        [] sh = "diamond_layers" -> std(<<w(<<FRef("d", "d", 1, "message", "one", FN(P, "L1"))>>)>> \o LayerMsgs(P, 26, "diamond"))
        [] sh = "map_chain" -> std(<<w(<<FRef("d", "d", 1, "message", "one", FN(P, "L1"))>>)>> \o LayerMsgs(P, 16, "map"))
        [] sh = "clique" -> std(<<w(<<FRef("d", "d", 1, "message", "one", FN(P, "K1"))>>)>> \o CliqueMsgs(P, 11))
@@ -415,7 +441,7 @@ Params == {"plain", "mock", "json", "yaml", "source_relative"}
 Int64Kinds == {"int64", "uint64", "sint64", "fixed64", "sfixed64"}
 \* one annotated field (feature, kind, cardinality); ref resolves message / enum kinds
 AField(P, feat, k, c, n, num) ==
-  LET ref == CASE k = "message" -> (IF feat = "ts" THEN "google.protobuf.Timestamp" ELSE FN(P, "Child"))
+  LET ref == CASE k = "message" -> (IF feat \in {"ts", "ts_seconds", "ts_date"} THEN "google.protobuf.Timestamp" ELSE FN(P, "Child"))
                [] k = "enum" -> (IF feat = "enum_number" THEN FN(P, "P") ELSE FN(P, "E")) [] OTHER -> ""
       base == IF c = "map" THEN FMap(n, n, num, "string", k, ref) ELSE FRef(n, n, num, k, c, ref)
   IN CASE feat = "int64_number" -> Ann(base, "int64", "NUMBER")
@@ -427,7 +453,10 @@ AField(P, feat, k, c, n, num) ==
        [] feat = "empty_null"   -> Ann(base, "empty", "NULL")
        [] feat = "empty_omit"   -> Ann(base, "empty", "OMIT")
        [] feat = "ts"           -> Ann(base, "ts", "UNIX_MILLIS")
+       [] feat = "ts_seconds"   -> Ann(base, "ts", "UNIX_SECONDS")
+       [] feat = "ts_date"      -> Ann(base, "ts", "DATE")
        [] feat = "bytes"        -> Ann(base, "bytes", "HEX")
+       [] feat = "bytes_b64url_raw" -> Ann(base, "bytes", "BASE64URL_RAW")
        [] feat = "flatten"      -> Ann(base, "flatten", TRUE)
        [] feat = "unwrap"       -> Ann(base, "unwrap", TRUE)
        [] feat = "query"        -> Ann(base, "query", TRUE)
@@ -443,8 +472,8 @@ C13Singles ==
   \cup {<<f, "message", c>> : f \in {"empty_null", "empty_omit"}, c \in {"one", "opt"}}
   \* (annotations on map values and flatten on a proto3-optional message are refused by the
   \* generators as "wrong field type" / "oneof member": outside the accepted domain)
-  \cup {<<"ts", "message", c>> : c \in {"one", "opt", "rep"}}
-  \cup {<<"bytes", "bytes", c>> : c \in {"one", "opt", "rep"}}
+  \cup {<<f, "message", c>> : f \in {"ts", "ts_seconds", "ts_date"}, c \in {"one", "opt", "rep"}}
+  \cup {<<f, "bytes", c>> : f \in {"bytes", "bytes_b64url_raw"}, c \in {"one", "opt", "rep"}}
   \cup {<<"flatten", "message", "one">>}
   \cup {<<"unwrap", k, c>> : k \in {"string", "int64", "message", "double"}, c \in {"rep", "map"}}
   \cup {<<"query", k, c>> : k \in ScalarKinds \ {"bytes"}, c \in {"one", "opt", "rep"}}
